@@ -41,6 +41,8 @@ func main() {
 		colsMain(os.Args[2:])
 	case "req":
 		reqMain(os.Args[2:])
+	case "err":
+		errMain(os.Args[2:])
 	default:
 		fmt.Fprintf(os.Stderr, "unknown family %q\n", os.Args[1])
 		os.Exit(2)
